@@ -21,6 +21,9 @@ Instances == {P2PKH,
               P2PKH \o <<0, 99, 3, 111, 114, 100, 81, 1, 116, 0, 0, 104>>,
               P2PKH \o <<0, 99, 3, 111, 114, 100, 81, 1, 116, 0, 1, 104, 104, 106, 1, 9>>,
               <<1, 2, 76, 0>>, <<76, 0, 81, 81, 174>>, <<>>}
+             \* data carriers with two pushes of every short length (a, b in 1..5), both prefixes
+             \cup {pre \o <<a>> \o [i \in 1..a |-> 96 + i] \o <<b>> \o [i \in 1..b |-> 64 + i] :
+                      pre \in {<<106>>, <<0, 106>>}, a \in 1..5, b \in 1..5}
 Repl == {0, 76, 77, 78, 106, 255}
 
 VARIABLES s, mutated
